@@ -203,6 +203,9 @@ func (s *subscriberServer) UpdateSubscription(
 	ctx context.Context,
 	req *pubsubpb.UpdateSubscriptionRequest,
 ) (*pubsubpb.Subscription, error) {
+	if req.Subscription == nil {
+		return nil, status.Error(codes.InvalidArgument, "Missing subscription")
+	}
 	if !isValidSubscriptionName(req.Subscription.Name) {
 		return nil, status.Errorf(
 			codes.InvalidArgument,
